@@ -139,10 +139,10 @@ for name in x86_afs.reg_list8:
 for name in x86_afs.reg_flt:
     registers[name] = x86_afs.f32
 registers['st'] = registers['st0']
-#for name in x86_afs.reg_dr:
-#    registers[name] = x86_afs.u32
-#for name in x86_afs.reg_cr:
-#    registers[name] = x86_afs.u32
+for name in x86_afs.reg_dr:
+    registers[name] = x86_afs.u32
+for name in x86_afs.reg_cr:
+    registers[name] = x86_afs.u32
 for name in x86_afs.reg_mm:
     registers[name] = x86_afs.mm
 for name in x86_afs.reg_xmm:
